@@ -10,4 +10,5 @@ def run(c):
     c.guard("blocks", st.get("blocks", 0))
     c.guard("epoch_first_blocks", st.get("epoch_first_blocks", 0))
     c.guard("scenarios", st.get("scenarios", 0))
+    c.guard("resets_mid_epoch", st.get("resets_mid_epoch", 0))
     return lc.finish(c, res, "seals scripted at frames 1..5 with mutated/unchanged validator sets; epoch, validator set, last decided frame and block frames checked after every call; instances reset directly to epochs 2 and 3 validated on the same events", extra=None)
